@@ -1,6 +1,8 @@
 package checks
 
 import (
+	"regexp"
+
 	"verif/ref"
 )
 
@@ -114,3 +116,5 @@ func rdv(s string, vars map[string]*ref.Var) T { return ref.MustRead(s, vars) }
 
 // rdAll parses a text of clauses.
 func rdAll(s string) []T { return ref.MustReadAll(s) }
+
+func digitsAfterUnderscore() *regexp.Regexp { return regexp.MustCompile(`_[0-9]+`) }
